@@ -137,11 +137,12 @@ def build_sim(packages=("simtools",)):
     return time.time() - t0
 
 
-def build_cli():
-    """The real peginator-cli binary, built from /repo/cli into a target dir of ours."""
+def build_cli(release=False):
+    """The real peginator-cli binary, built from /repo/cli into a target dir of ours (release=True: the optimised build,
+    as `cargo install` makes it: a second build of the same generator source)."""
     t0 = time.time()
     p = sh(["cargo", "build", "--offline", "--quiet", "--manifest-path", os.path.join(REPO, "cli", "Cargo.toml"),
-            "--target-dir", CLI_TARGET], env=cargo_env())
+            "--target-dir", CLI_TARGET] + (["--release"] if release else []), env=cargo_env())
     if p.returncode != 0:
         raise HarnessError("building peginator-cli from the working tree failed:\n%s" % p.stderr.decode(errors="replace")[-8000:])
     return time.time() - t0
@@ -151,8 +152,8 @@ def sim_bin(name):
     return os.path.join(SIM_TARGET, "debug", name)
 
 
-def cli_bin():
-    return os.path.join(CLI_TARGET, "debug", "peginator-cli")
+def cli_bin(release=False):
+    return os.path.join(CLI_TARGET, "release" if release else "debug", "peginator-cli")
 
 
 def shim_env(entropy=None, clock=None, faults=None, heap_pad=None, shim_log=None):
